@@ -176,8 +176,18 @@ class FakeFile:
     def __exit__(self, *a):
         return False
 
+    closed = False
+
     def close(self):
-        pass
+        self.closed = True
+
+    def fileno(self):
+        raise OSError("in-memory file model has no descriptor")
+
+    def tell(self):
+        if self.pos == 0:
+            return 0
+        raise EngineLimit("tell() away from the start of the file")
 
     def flush(self):
         pass
